@@ -195,7 +195,7 @@ check("C09",
       "Theorem (Lean, every archive shape and EVERY subset of members): on a fresh session extract(T) delivers exactly "
       "the selected part of what extractall delivers, with identical folder/offset/length per member (skip arithmetic "
       "of decode-and-discard, folders without targets skipped, trailing members not decoded); trailing slash immaterial; "
-      "absent names ignored; recursive selection = target + members beneath it under the quantifier's prefix-freedom. "
+      "absent names ignored; selection distributes over unions of targets and depends only on which names the collection holds (selected_union, selected_set_like: list or set, any order, repeats); non-recursive = exact name, recursive = exact name or prefix (nonrecursive_exact, recursive_iff); recursive selection = target + members beneath it under the quantifier's prefix-freedom. "
       "Tied by the sel and rs streams. Explored on py7zr- and reference-written archives (solid, multi-folder, "
       "empty-stream files between data members): all subsets T for small archives, list/set, +/- '/', recursive, "
       "directory and factory output, created paths = selected members + ancestors. Round-h addition: stored (Copy) and LZMA2 solid folders whose members exceed the decoder's 1 MiB read-ahead, every subset of their members.",
